@@ -907,8 +907,20 @@ impl<P: Pred> World<P> {
                 Misuse::AdvanceMissingInput => {
                     let pending = sess.verif_sizes().pending_local_inputs;
                     let running = sess.current_state() == SessionState::Running;
-                    guarded(|| sess.advance_frame()).map(|r| match r {
-                        Ok(l) => format!("Ok[{}](pending={pending},running={running})", l.len()),
+                    let _ = running;
+                    let r = guarded(|| sess.advance_frame());
+                    // the call polls first: what counts is the state it found after polling
+                    let running = sess.current_state() == SessionState::Running;
+                    let rollback_mode = core.scn.mp > 0;
+                    let game = &mut core.nodes[ni].game;
+                    r.map(|r| match r {
+                        Ok(l) => {
+                            // inputs of a stalled tick were still pending: this was a legitimate call and
+                            // its requests have to be executed like any others
+                            let n = l.len();
+                            let h = game.handle(l, rollback_mode);
+                            format!("Ok[{n}]{}(pending={pending},running={running})", if h.is_err() { "!contract" } else { "" })
+                        }
                         Err(e) => format!("{}(pending={pending},running={running})", err_name(&e)),
                     })
                 }
